@@ -5,7 +5,11 @@ VERIF = os.path.dirname(os.path.dirname(os.path.abspath(__file__)))
 COQ = os.path.join(VERIF, 'coq')
 BUILD = os.path.join(VERIF, 'build')
 OCAML_SRC = os.path.join(VERIF, 'ocaml')
-REPO = '/repo'
+# The checks always verify /repo.  VERIF_ALT_TREE=<dir containing a `cpppo` checkout> is a development aid used only by
+# tools/try_mutation_alt.sh to judge a seeded change in a scratch copy without touching /repo; no registered command sets it.
+_ALT = os.environ.get('VERIF_ALT_TREE')
+REPO = os.path.join(_ALT, 'cpppo') if _ALT else '/repo'
+OUT = (os.environ.get('VERIF_OUT') if _ALT else None) or VERIF
 NCPU = os.cpu_count() or 8
 
 FORBIDDEN = re.compile(
@@ -280,21 +284,21 @@ class Ctx:
             self.notes.append('%s: %s' % (name, json.dumps(detail, default=str)[:3000]))
 
     def finish(self):
-        os.makedirs(os.path.join(VERIF, 'replays'), exist_ok=True)
-        os.makedirs(os.path.join(VERIF, 'evidence'), exist_ok=True)
+        os.makedirs(os.path.join(OUT, 'replays'), exist_ok=True)
+        os.makedirs(os.path.join(OUT, 'evidence'), exist_ok=True)
         lines = []
         for rep, found in self.violations:
             body = dict(property=self.pid, tier=self.tier, seed=self.seed, kind='failing-input', broken=self.broken,
                         replay_cmd='./check %s --replay <this file>' % self.pid, **rep)
             h = hashlib.sha1(json.dumps(body, sort_keys=True, default=str).encode()).hexdigest()[:12]
-            path = os.path.join(VERIF, 'replays', '%s-%s.json' % (self.pid, h))
+            path = os.path.join(OUT, 'replays', '%s-%s.json' % (self.pid, h))
             json.dump(body, open(path, 'w'), indent=1, default=str)
             lines.append('VIOLATION property=%s replay=%s' % (self.pid, path)); self.replay_paths.append(path)
         if self.broken and not self.violations:
             body = dict(property=self.pid, tier=self.tier, seed=self.seed, kind='no-failing-input-found',
                         no_longer_checks=self.broken, notes=self.notes)
             h = hashlib.sha1(json.dumps(body, sort_keys=True, default=str).encode()).hexdigest()[:12]
-            path = os.path.join(VERIF, 'replays', '%s-%s.json' % (self.pid, h))
+            path = os.path.join(OUT, 'replays', '%s-%s.json' % (self.pid, h))
             json.dump(body, open(path, 'w'), indent=1, default=str)
             lines.append('VIOLATION property=%s replay=%s no-failing-input-found' % (self.pid, path)); self.replay_paths.append(path)
         cov = self.coverage
@@ -305,7 +309,7 @@ class Ctx:
         ev = dict(property_id=self.pid, tier=self.tier, seed=self.seed, level='proof', coverage=cov,
                   assumptions=self.assumptions, wall_s=round(time.time() - self.t0, 2),
                   violations=len(lines))
-        json.dump(ev, open(os.path.join(VERIF, 'evidence', self.pid + '.json'), 'w'), indent=1, default=str)
+        json.dump(ev, open(os.path.join(OUT, 'evidence', self.pid + '.json'), 'w'), indent=1, default=str)
         for m in self.known_hits:
             print(m)
         for l in lines:
